@@ -53,7 +53,7 @@ def build_tasks(pid: str, tier: str, seed: int, budget_s: float, workers: int) -
                 if tier == "quick":
                     t["runs"] = int(os.environ.get("VERIF_RUNS", "0") or 0) or prop.runs_for(ad, cfg, tier)
                     t["hard_timeout"] = 600
-                tasks.append(t)
+                tasks.extend(prop.expand(t))
     if tier == "thorough":
         # wall-clock only decides how many run indices get executed; run i always has the same sub-seed
         rounds = max(1, int(np.ceil(len(tasks) / workers)))
